@@ -3,7 +3,8 @@ import random
 from pathlib import Path
 
 from vlib import Check
-from checks.tables_common import table_models, generated, run_tables
+from checks.tables_common import (table_models, generated, run_tables, value_models, generated_values,
+                                  random_value_histories, run_values)
 
 
 def run(tier):
@@ -11,6 +12,8 @@ def run(tier):
     chk.rule = ("model: all histories <= MaxOps of add/clear/copy/destroy over three block slots; (G) every generated history "
                 "that contains a copy is replayed on real CdnsBlock objects under AddressSanitizer for each of the nine tables "
                 "x {copy, move} construction/assignment x {CdnsBlock, CdnsBlockRead} and for blocks returned by the reader; "
+                "MCBlockValue: items, the six manners of obtaining a CdnsBlockRead, clear/destroy of the source, generic reads on "
+                "the copy (index cursors and the address-event iterator), replayed on real blocks with the serialisation read back; "
                 "distinct = executions")
     chk.assumptions = ["TLC + CommunityModules", "AddressSanitizer/UBSan as the instrument that sees a use of freed storage",
                        "probe hook (CDNS_VERIF) reading the addresses of the table keys"]
@@ -19,7 +22,15 @@ def run(tier):
     if tier == "thorough":
         hs += generated(chk, 5, "{0, 3}", need_copy=True, limit=6000)
     m = run_tables(chk, hs, {"C19"}, label="c19")
-    chk.distinct = m["execs"]
+    # whole blocks: items, six manners of copying, generic reads on the copies, serialisation (BlockValue.tla)
+    value_models(chk, tier)
+    vs = generated_values(chk, 4, limit=1500 if tier == "quick" else None)
+    rng = random.Random(chk.seed)
+    vs += random_value_histories(rng, 300 if tier == "quick" else 4000, 30)
+    if tier == "thorough":
+        vs += generated_values(chk, 5, limit=20000)
+    m2 = run_values(chk, vs, {"C19"}, label="c19v")
+    chk.distinct = m["execs"] + m2["execs"]
     return chk.finish()
 
 
